@@ -196,6 +196,9 @@ func Join() {
 	case <-c:
 	case <-time.After(2 * time.Second):
 	}
+	// goroutines started by the code under test (pumps ...): natively quiescence is approximated
+	// by giving them time to run and block again
+	time.Sleep(60 * time.Millisecond)
 }
 
 func Atomic(f func()) { f() }
@@ -308,6 +311,9 @@ func LoopPostUint64(name string) uint64                       { return 0 }
 func LoopPostInt32(name string) int32                         { return 0 }
 func LoopPostBool(name string) bool                           { return false }
 func LoopPostIsNil(name string) bool                          { return false }
+
+// LoopBlocked: the iteration cut by LoopStep ended waiting in a blocking operation.
+func LoopBlocked() bool { return false }
 
 // ---- C16 helpers ----
 
